@@ -39,3 +39,30 @@ Definition mk_resp (status : Z) (meta : str) : resp := {| rs_status := status; r
 
 (* "<literal>".encode("utf-8") : only applied to string literals of the source (UnicodeEncodeError cannot occur) *)
 Definition encode_total (s : str) : str := match encode s with Some b => b | None => [] end.
+
+(* ---- results of completed tasks, as the callbacks see them through task.result() ---- *)
+Inductive tres (A : Type) := TRet (a : A) | TExc (msg : str).
+Arguments TRet {A} a.
+Arguments TExc {A} msg.
+
+(* ---- views of a response body (str | bytes | None), used under the corresponding isinstance / truthiness guards ---- *)
+Definition body_truthy (b : body) : bool := match b with BNone => false | BText [] => false | BBytes [] => false | _ => true end.
+Definition body_is_bytes (b : body) : bool := match b with BBytes _ => true | _ => false end.
+Definition body_raw (b : body) : str := match b with BBytes x => x | _ => [] end.
+Definition body_text (b : body) : str := match b with BText x => x | _ => [] end.
+
+(* ---- str methods ---- *)
+Definition replace_ch (c1 c2 : N) (s : str) : str := map (fun c => if N.eqb c c1 then c2 else c) s.
+(* s.isascii() and s.isdigit() : non-empty, ASCII digits only *)
+Definition ascii_digits (s : str) : bool := match s with [] => false | _ => forallb is_digit s end.
+(* int(s) for a string of ASCII digits (the only way it is called: under the guard above); None = ValueError *)
+Definition py_int_digits (s : str) : option Z := option_map Z.of_N (undec s).
+
+(* ---- a parsed Gemini request: GeminiRequest.from_line(line) keeps the line (raw_url) and the parsed URL ---- *)
+Record req := { rq_line : str; rq_parsed : parsed }.
+Definition request_from_line (ip6_check : str -> option str) (line : str) : res req :=
+  match gemini_from_line ip6_check line with
+  | Ok p => Ok {| rq_line := line; rq_parsed := p |}
+  | Err k m => Err k m
+  | OutOfModel => OutOfModel
+  end.
